@@ -371,6 +371,11 @@ func (p *producer) buildTx(o Op, extraAttrs []transaction.Attribute) (tx *transa
 			emit.Int(w.BinWriter, 4)
 			emit.Opcodes(w.BinWriter, opcode.PACK)
 			emit.AppCallNoArgs(w.BinWriter, tok, "transfer", callflag.All)
+			if o.N%2 == 1 {
+				// (one more call after the one whose arguments cannot be recorded)
+				emit.Opcodes(w.BinWriter, opcode.DROP)
+				emit.AppCall(w.BinWriter, tok, "balanceOf", callflag.ReadStates, a.ScriptHash())
+			}
 			script = w.Bytes()
 			desc += " data=pointer"
 		}
